@@ -78,6 +78,9 @@ def cases(tier, seed):
         yield {"kind": "grid", "dist": "MeanFieldVariationalDistribution", "dims": 3, "seed": rnd.randrange(10**6)}
         for kind, ti in itertools.product(["lmc", "indep"], [False, True]):
             yield {"kind": kind, "task_indices": ti, "seed": rnd.randrange(10**6)}
+        # a variational GP used as a layer of a deep GP (DeepGPLayer): deterministic inputs, sampled inputs (are_samples=True)
+        for h, samples in itertools.product([1, 2], [False, True]):
+            yield {"kind": "deep_layer", "h": h, "are_samples": samples, "seed": rnd.randrange(10**6)}
         # LMC with the latent dimension NOT last (documented `latent_dim` option), other batch dimension of equal / other size,
         # lazy and eager kernel evaluation
         for (Q_, B_), ti, lazy in itertools.product([(3, 3), (2, 3), (3, 1)], [False, True], [True, False]):
@@ -267,7 +270,7 @@ def run_case(case, ctx):
 
 
 def _dispatch(case, ctx, g):
-    return {"svgp": _svgp, "aliasing": _aliasing, "init_from_prior": _init_from_prior, "bdvs": _bdvs, "grid": _grid, "lmc": _multitask, "indep": _multitask, "lmc_latent_dim": _lmc_latent_dim, "identity": _identity, "same_qu": _same_qu, "orth": _orth}[case["kind"]](case, ctx, g)
+    return {"svgp": _svgp, "aliasing": _aliasing, "init_from_prior": _init_from_prior, "bdvs": _bdvs, "grid": _grid, "lmc": _multitask, "indep": _multitask, "lmc_latent_dim": _lmc_latent_dim, "deep_layer": _deep_layer, "identity": _identity, "same_qu": _same_qu, "orth": _orth}[case["kind"]](case, ctx, g)
 
 
 def _qu_unwhitened(case_strat, dist, vs, Kzz, mz, jit):
@@ -835,6 +838,58 @@ def _multitask(case, ctx, g):
         kl = m.variational_strategy.kl_divergence()
         ctx.close(mon, kl, base.kl_divergence().sum(), (1e-9, 1e-9), cls=kind + ":kl_is_sum_over_latents")
     ctx.cell({k: v for k, v in case.items() if k != "seed"})
+
+
+def _deep_layer(case, ctx, g):
+    """DeepGPLayer.__call__: the h hidden GPs' q(f) at the (repeated) inputs, returned as ONE non-interleaved multitask normal
+    whose covariance is block diagonal over the outputs - each block the FULL covariance of that output's q(f); deterministic
+    inputs are expanded over num_likelihood_samples, sampled inputs keep their sample dimension"""
+    import torch
+
+    import gpytorch
+    from gpytorch import settings as S
+    from gpytorch.models.deep_gps import DeepGPLayer
+    from vf import util
+
+    V = gpytorch.variational
+    h = case["h"]
+    bs = torch.Size([h])
+    Z = util.randn(g, h, M_, D)
+
+    class Layer(DeepGPLayer):
+        def __init__(s):
+            vd = V.CholeskyVariationalDistribution(M_, batch_shape=bs)
+            super().__init__(V.VariationalStrategy(s, Z, vd, learn_inducing_locations=True), D, h)
+            s.mean_module = gpytorch.means.ConstantMean(batch_shape=bs)
+            s.covar_module = gpytorch.kernels.ScaleKernel(gpytorch.kernels.RBFKernel(batch_shape=bs), batch_shape=bs)
+
+        def forward(s, x):
+            return gpytorch.distributions.MultivariateNormal(s.mean_module(x), s.covar_module(x))
+
+    m = Layer()
+    util.randomize(m, g, 0.4)
+    _randomize_vd(m.variational_strategy._variational_distribution, "CholeskyVariationalDistribution", g)
+    m.variational_strategy.variational_params_initialized.fill_(1)
+    m.eval()
+    ns = 3
+    X = util.randn(g, ns, N_, D) if case["are_samples"] else util.randn(g, N_, D)
+    with torch.no_grad(), S.num_likelihood_samples(ns):
+        out = m(X, are_samples=True) if case["are_samples"] else m(X)
+        rep = X.unsqueeze(-3).expand(*X.shape[:-2], h, N_, D)
+        base = m.variational_strategy(rep)  # (samples x) h x N
+        bm, bc = base.mean, base.covariance_matrix
+        if not case["are_samples"]:
+            bm, bc = bm.expand(ns, h, N_), bc.expand(ns, h, N_, N_)
+        ref_mean = bm.transpose(-1, -2)  # samples x N x h
+        ref_cov = torch.stack([torch.block_diag(*bc[i]) for i in range(ns)])  # task-major (non-interleaved) layout
+        ctx.expect("deep_layer", tuple(out.mean.shape) == (ns, N_, h), f"output mean shape {tuple(out.mean.shape)}, expected {(ns, N_, h)}")
+        got = out.covariance_matrix
+        if out._interleaved:
+            got = got.reshape(ns, N_, h, N_, h).permute(0, 2, 1, 4, 3).reshape(ns, N_ * h, N_ * h)
+        ctx.close("deep_layer", out.mean, ref_mean, (1e-10, 1e-10), cls="deep_layer:mean:" + ("samples" if case["are_samples"] else "deterministic"))
+        ctx.close("deep_layer", got, ref_cov, (1e-10, 1e-10), cls="deep_layer:cov:" + ("samples" if case["are_samples"] else "deterministic"))
+        off = float((ref_cov - torch.diag_embed(torch.diagonal(ref_cov, dim1=-2, dim2=-1))).abs().max())
+    ctx.cell({k: v for k, v in case.items() if k != "seed"}, nontrivial=off > 1e-3)
 
 
 def _lmc_latent_dim(case, ctx, g):
